@@ -170,13 +170,15 @@ def SPFKinSpaceR(leg_lengths : 'np.ndarray[float]',
         dfda = np.zeros((6, 6))
         dfda[:, 0:3] = 2*(xbar + uvw)
         for i in range(6):
-            #dfda4 is swapped with dfda6 for magic reasons!
-            dfda[i, 5] = 2*(-xbar[i, 0] * uvw[i, 1] + xbar[i, 1] * uvw[i, 0]) #dfda4
-            dfda[i, 4] = 2 * ((-xbar[i, 0] * angs[4] +
-                    xbar[i, 1] * angs[5]) * uvw[i, 2] -
-                    (top_joints_init[i, 0] * angs[2] +
-                    top_joints_init[i, 1] * angs[3] * angs[1]) * xbar[i, 2]) #dfda5
-            dfda[i, 3] = 2 * top_joints_init[i, 1] * (np.dot(xbar[i,:], Rzyx[:, 2])) #dfda
+            #The orientation is a rotation vector (MatrixExp3 above), not a set of Euler angles:
+            #turning the plate by a small rotation d moves joint i by d x uvw_i, so the squared
+            #leg length changes by 2 * d . (uvw_i x leg_i). (The Euler angle formulas used here
+            #before are a different parametrisation: the iteration cycled instead of converging
+            #for poses tilted about both x and y.)
+            leg_i = xbar[i, :] + uvw[i, :]
+            dfda[i, 3] = 2 * (uvw[i, 1] * leg_i[2] - uvw[i, 2] * leg_i[1])
+            dfda[i, 4] = 2 * (uvw[i, 2] * leg_i[0] - uvw[i, 0] * leg_i[2])
+            dfda[i, 5] = 2 * (uvw[i, 0] * leg_i[1] - uvw[i, 1] * leg_i[0])
         #disp(dfda, "Dfda")
         #disp(np.linalg.inv(
         #       self.InverseJacobianSpace(self.gbottom_transform(), self.gtop_transform())))
